@@ -97,7 +97,7 @@ def confirm(root, repo_src, scratch):
     """native confirmation: ThreadSanitizer run + result comparison run of the multi-threaded driver"""
     drv = os.path.join(root, 'repro', 'c20_threads.c')
     res = {}
-    for tag, cc, flags in (('tsan', 'clang', ['-fsanitize=thread', '-O1', '-g']), ('results', 'gcc', ['-O1', '-g'])):
+    for tag, cc, flags in (('tsan', 'clang', ['-fsanitize=thread', '-O1', '-g']), ('results', 'gcc', ['-O0', '-g'])):
         exe = os.path.join(scratch, 'c20_' + tag)
         rc, out, err = run([cc] + flags + ['-w', '-DENABLE_LOCALES', '-I', repo_src, drv, os.path.join(repo_src, 'cJSON.c'), os.path.join(repo_src, 'cJSON_Utils.c'), '-lm', '-lpthread', '-o', exe])
         if rc != 0:
